@@ -150,7 +150,11 @@ def make_harness(case, tier):
                     ri_exp, log_exp = expected_records(ref, k, n, produced[loc])
                     if loc in quiet_locs:
                         log_exp = []
-                    ri = t.run_info
+                    try:
+                        ri = t.run_info
+                    except Exception as e:        # the record of a stored result must be readable
+                        ctx.check_concrete(False, 'run-info', dict(info, task=n, chain=k, error=f'{type(e).__name__}: {e}'[:200]))
+                        continue
                     got_ri = None if ri is None else {kk: ri.get(kk) for kk in ri_exp}
                     if got_ri and isinstance(got_ri.get('config'), dict) and got_ri['config'].get('name') == f'cfg0/{n}':
                         # parameter mode records the per-task config "<config name>/<task>": it names the config
